@@ -51,6 +51,48 @@ def gen_tree(rng, max_depth=4, root=None, with_init=True, nonpy=True):
     return root, dirs, files
 
 
+class DirList(list):
+    """list of directories that also knows which of them are symbolic links: links[link_dir] = target_dir"""
+    links: dict
+
+
+def max_relative_level(body) -> int:
+    return max([s0[1] for s0 in import_statements(body) if s0[0] == "from"] or [0])
+
+
+def add_links(rng, dirs, files):
+    """Symbolic links inside the project: a .py file linked under another name / in another package, a package directory linked
+    under another name.  A link is what its path says (that is how Python imports it): abstractly the linked file / sub tree
+    simply exists a second time, with the same statements.  Call AFTER gen_imports.  -> dirs (a DirList)"""
+    out = DirList(dirs)
+    out.links = {}
+    root = dirs[0]
+    pyfiles = [f for f, v in files.items() if v["py"] and f[-1] != "__init__"]
+    if pyfiles and rng.random() < 0.7:
+        t = rng.choice(pyfiles)
+        d = rng.choice(list(dirs))
+        name = rng.choice(["lnk", "alias_mod", t[-1] + "_l"])
+        # (only where every relative import of the file still stays inside the project at the new place)
+        if d + (name,) not in files and d + (name,) not in dirs and max_relative_level(files[t]["body"]) <= len(d):
+            files[d + (name,)] = dict(files[t], link_to=t)
+    cands = [t for t in dirs if len(t) >= 2]
+    if cands and rng.random() < 0.6:
+        t = rng.choice(cands)
+        hosts = [d for d in dirs if d[:len(t)] != t]          # not inside the target (no link cycles)
+        if hosts:
+            d = rng.choice(hosts)
+            link = d + (rng.choice(["lnkd", "alias_pkg", t[-1] + "_l"]),)
+            ok_levels = all(max_relative_level(v["body"]) <= len(link + f[len(t):]) - 1 for f, v in files.items() if f[:len(t)] == t and v["py"])
+            if ok_levels and link not in out and link not in files and not any(x[:len(link)] == link for x in list(out) + list(files)):
+                out.links[link] = t
+                for x in [x for x in dirs if x[:len(t)] == t]:
+                    out.append(link + x[len(t):])
+                for f, v in list(files.items()):
+                    if f[:len(t)] == t:
+                        files[link + f[len(t):]] = dict(v, inside_link=True, link_to=None)
+    return out
+
+
 def dotted(t):
     return ".".join(t)
 
@@ -282,12 +324,30 @@ def materialise(dirs, files, sources=None):
         # nothing above the root directory may influence module names, exclusions are matched on the whole path
         base = base / AWKWARD_PARENT
         base.mkdir()
+    links = getattr(dirs, "links", {})
+
+    def below_link(p):
+        return any(p[:len(l)] == l and len(p) > len(l) for l in links) or False
     for p in dirs:
+        if p in links or below_link(p):
+            continue
         os.makedirs(os.path.join(base, *p), exist_ok=True)
     for f, v in files.items():
+        if below_link(f) or any(f[:len(l)] == l for l in links):
+            continue
+        if v.get("link_to"):
+            continue
         suffix = ".py" if v["py"] else ".txt"
         with open(os.path.join(base, *f[:-1], f[-1] + suffix), "w", encoding="utf-8", newline="") as fh:
             fh.write(sources[f] if sources and f in sources else render_v(v))
+    for f, v in files.items():
+        if v.get("link_to") and not below_link(f) and not any(f[:len(l)] == l for l in links):
+            dst = os.path.join(base, *f[:-1], f[-1] + ".py")
+            src = os.path.join(base, *v["link_to"][:-1], v["link_to"][-1] + ".py")
+            os.symlink(os.path.relpath(src, os.path.dirname(dst)), dst)
+    for l, t in links.items():
+        dst = os.path.join(base, *l)
+        os.symlink(os.path.relpath(os.path.join(base, *t), os.path.dirname(dst)), dst)
     return base
 
 
